@@ -52,3 +52,11 @@ Theorem C18_gen_names_facts :
   gen_names_known = true /\ forallb (fun sn => avoids (snd sn)) template_names = true.
 Proof. exact gen_names_facts. Qed.
 Print Assumptions C18_gen_names_facts.
+
+Theorem C18_spelling_avoids : forall s N, In (s, N) spelling_names ->
+  let r := python_identifier s s_field false in
+  is_reserved r = false /\
+  (starts_us s = true -> r <> N) /\
+  (starts_us N = false -> In r template_idents -> r = python_identifier N s_field false).
+Proof. exact spelling_avoids. Qed.
+Print Assumptions C18_spelling_avoids.
